@@ -228,7 +228,7 @@ def _df_fillna(df, method = None, axis = 0, limit = None):
                     res = res.ffill(**params)
                     res[res.index>last_valid] = invalid
             else:
-                res = pd.concat([_df_fillna(res.iloc[:, i], method, **params) for i in range(res.shape[1])], axis=1)
+                res = pd.concat([_df_fillna(res.iloc[:, i], m, **params) for i in range(res.shape[1])], axis=1) ## this step only: the other steps of a method list are applied by the loop we are in
         elif is_date(m):
             res = res.ffill(**params)
             res[res.index>m] = np.nan
